@@ -90,10 +90,11 @@ CLAIMED = {
              'happen where |tan x| <= 64 needs the unproved accuracy of cos (C16). Correspondence in both profiles incl. i32::MIN exponents; panics observed only outside the property\'s domain.',
         design_ref='7/C12', note=COMMON_NOTE, technique='Lean 4 proof (value invariants through the loops) over executable model + two-profile correspondence'),
     'C14': dict(
-        text='PARTIAL. Full statement C14_statement (over the reals) is in SfxProps/C14.lean; theorem C14_partial proves for every supported type and operand: totality, the exact Err '
-             'condition, result representable, sign claims, exactness on every power of two (log2) and totality/Err condition for ln. NOT proved: the 8-ulp and 2^-23 relative error bounds; '
-             'they are judged on every run by the mpmath search oracle on the implementation\'s answers (worst observed 0.43 of the bound), which is search support, not a proof.',
-        design_ref='7/C14', note=COMMON_NOTE + ' The numeric error bounds rest on sampled oracle judgements only.', technique='Lean 4 proof (partial) + differential correspondence + mpmath search oracle'),
+        text='FULL. Theorem SfxProps.C14.holds proves C14_statement over Mathlib\'s reals (Real.logb 2, Real.log) for every source layout S and supported destination D with D: From<S> '
+             '(S = D included) and every operand: |r - log2 x| <= 8 ulp (the proof gives 4.5), |r - ln x| <= 2^-23 |ln x| + 8 ulp (the proof gives 4.2; the relative term is the truncated '
+             'LOG2_E constant, bounded with Real.log_two_gt_d9/lt_d9), the sign claims, exactness on every power of two, the exact Err condition, no panic. '
+             'The mpmath oracle still judges the implementation\'s answers on every run (worst observed 0.43 of the bound) as the search for failing inputs when the correspondence breaks.',
+        design_ref='7/C14', note=COMMON_NOTE, technique='Lean 4 proof (integer trace + potential-function argument over the reals) + differential correspondence + mpmath search oracle'),
     'C15': dict(
         text='PARTIAL + KNOWN FINDING. Full statement C15_statement in SfxProps/C15.lean; theorem C15_partial proves the whole powi clause (exact rational error bound (n-1) ulp * max(1,|x|)^(n-1) '
              'for n >= 2, truncated reciprocal for n < 0), the conventions 0^y, x^0, x^1 of pow and powi, totality (C12). NOT proved: error bounds of exp and pow. exp violates the property '
